@@ -202,7 +202,29 @@ def check_two_stores(ctx, rng):
         shutil.rmtree(root, ignore_errors=True)
 
 
+FAKE = [0.0]
+
+
+class SteppedDateTime(datetime.datetime):
+    """What security_v2 sees as `datetime`: the real class, whose now() reads a wall clock that the harness steps (an operator
+    correction, NTP after a boot without RTC, resume from suspend) - datetime.now itself cannot be patched."""
+    @classmethod
+    def now(cls, tz=None):
+        return datetime.datetime.now(tz) + datetime.timedelta(seconds=FAKE[0])
+
+
 def run(ctx):
+    import ndn.app_support.security_v2 as sv2
+    old_dt = sv2.datetime
+    sv2.datetime = SteppedDateTime
+    try:
+        return run_(ctx)
+    finally:
+        sv2.datetime = old_dt
+        FAKE[0] = 0.0
+
+
+def run_(ctx):
     ctx.rule = RULE
     rng = ctx.rng
     n = ctx.n(700, 100000)
@@ -290,6 +312,10 @@ def run(ctx):
             which = ['derive', 'self', 'req'][(i - n) % 3]
         w = {'fn': which, 'issuer_key': ik, 'subject_key': sk, 'key_name': [c.hex() for c in key_name], 'form': fl}
         t0 = int(time.time() * 1000)
+        if which in ('self', 'req') and i % 3 == 1:
+            # the wall clock has been stepped since the last certificate was issued in this process
+            FAKE[0] = rng.choice([3600.0, -3600.0, 86400.0 * 400, -86400.0 * 9000, 0.0, 7.0])
+            ctx.event('issued-after-a-step-of-the-wall-clock')
         try:
             if which == 'derive':
                 start = rng.choice(STARTS) if rng.random() < 0.7 else \
@@ -316,6 +342,8 @@ def run(ctx):
                 if aware and rng.random() < 0.4:
                     # instants next to a daylight-saving transition of the zone they will be given in: 86400 s later is another wall-clock time
                     start = rng.choice([datetime.datetime(2024, 3, 9, 17, 0, 0), datetime.datetime(2024, 3, 10, 6, 30, 0), datetime.datetime(2024, 11, 3, 5, 30, 0),
+                                        datetime.datetime(2024, 11, 3, 6, 30, 0), datetime.datetime(2024, 11, 3, 5, 30, 0), datetime.datetime(2024, 11, 3, 6, 30, 0),
+                                        datetime.datetime(2025, 10, 26, 1, 30, 0),      # (the same wall-clock time twice in one night: instants an hour apart)
                                         datetime.datetime(2024, 11, 2, 12, 0, 0), datetime.datetime(2025, 3, 30, 0, 30, 0), datetime.datetime(2025, 10, 26, 0, 30, 0)])
                     dur = rng.choice([0, 3600, 7200, 86400, 86400 * 2, 30 * 86400])
                     want_zone = True
@@ -347,7 +375,7 @@ def run(ctx):
             elif which == 'self':
                 rn, wire = self_sign(form, pub, use_signer)
                 icomp = rc.comp(8, b'self')
-                now = datetime.datetime.now(UTC)
+                now = datetime.datetime.now(UTC) + datetime.timedelta(seconds=FAKE[0])
 
                 def nb(x):
                     return x == b'19700101T000000'
@@ -362,7 +390,7 @@ def run(ctx):
             else:
                 rn, wire = sign_req(form, pub, use_signer)
                 icomp = rc.comp(8, b'cert-request')
-                now = datetime.datetime.now(UTC).replace(tzinfo=None)
+                now = datetime.datetime.now(UTC).replace(tzinfo=None) + datetime.timedelta(seconds=FAKE[0])
 
                 def nb(x, now=now):
                     try:
@@ -410,6 +438,7 @@ def run(ctx):
     ctx.need_event('key-locator-wire-form-32-octets')
     ctx.need_event('validity-with-fractional-seconds')
     ctx.need_event('validity-starting-now')
+    ctx.need_event('issued-after-a-step-of-the-wall-clock')
     if not ctx.events.get('observation:no-tz-database'):
         ctx.need_event('aware-instant-in-a-zone-with-daylight-saving')
     ctx.assumptions = ['self_sign/sign_req read the real clock (datetime.now is not patchable): their instants are checked within 5 s',
